@@ -35,6 +35,14 @@ def make_packages(seed, npk, per_file, files_per_pkg=1, malformed_frac=0.0, opts
     me = declgen.multi_edge_decls(9700)
     for i in range(0, len(me), 8):
         pkgs.append(dict(name="yw%d" % (i // 8), files=[dict(fname="a.go", decls=me[i:i + 8])], kind="valid"))
+    # the user's package declares ctx, eg and err itself: the injector's context parameter and locals get other names, and
+    # every emission path has to use the name that was handed out (a path that falls back to a literal "ctx" still compiles
+    # here and waits on the package's background context, which is never cancelled)
+    rc = random.Random(seed * 31 + 7)
+    for yi in range(2):
+        ycd = [declgen.gen_decl(rc, 9800 + 10 * yi + j, dict(n=rc.choice([6, 8, 9, 10]))) for j in range(8)]
+        pkgs.append(dict(name="yc%d" % yi, files=[dict(fname="a.go", decls=ycd)], kind="valid",
+                     extra_files={"zz_names.go": "package main\n\nimport \"context\"\n\n// names a generated injector would like to use\nvar ctx = context.Background()\n\nvar eg, err = 0, error(nil)\n"}))
     cm = declgen.ctx_mid_decls(8000)
     pkgs.append(dict(name="cm0", files=[dict(fname="a.go", decls=cm)], kind="valid"))
     # systematic stream (C05): all async masks x all discovery orders of 2..3 parameterless providers
@@ -76,6 +84,9 @@ def write_package(mod, pkg):
     for f in pkg["files"]:
         with open(os.path.join(d, f["fname"]), "w") as fh:
             fh.write(declgen.render_file(f["decls"]))
+    for fname, text in (pkg.get("extra_files") or {}).items():
+        with open(os.path.join(d, fname), "w") as fh:
+            fh.write(text)
     return d
 
 
